@@ -41,7 +41,9 @@ type Prog struct {
 
 	ssaState *ssaState
 
-	Inline *InlineReport // what the normalisation by inlining did (nil when Load was used directly)
+	Inline *InlineReport
+	// Baseline is the table of functions of the reference tree the normalisation was run with (nil: none).
+	Baseline map[string]bool // what the normalisation by inlining did (nil when Load was used directly)
 }
 
 // ReadAbs returns the content of a source file by absolute name, taking the overlay into account.
